@@ -436,4 +436,140 @@ def parseWith (fuel : Nat) (s : List Char) : Option J :=
     answer. -/
 def parse (s : List Char) : Option J := parseWith (2 * s.length + 2) s
 
+/-! ## today's behaviour (pinned tree), kept for the witnesses of findings C41-1 and C41-2
+
+Nothing above depends on this part. -/
+
+/-- TODAY's `json_characters//1`: as `parseChars`, except that `char_code/2` raises
+    `representation_error(character_code)` for EVERY surrogate code unit (high or low), which
+    aborts the whole `phrase/2`: no answer (finding C41-1). -/
+def parseCharsPinned : List Char → Option (List Char × List Char)
+  | [] => none
+  | c :: r =>
+    if c = '"' then some ([], r)
+    else if c = '\\' then
+      match r with
+      | [] => none
+      | p :: r1 =>
+        if p = 'u' then
+          match r1 with
+          | a :: b :: c2 :: d :: r2 =>
+            match hex4 a b c2 d with
+            | none => none
+            | some n =>
+              if isLowSurr n then none
+              else if isHighSurr n then none
+              else
+                match parseCharsPinned r2 with
+                | some (cs, rest) => some (Char.ofNat n :: cs, rest)
+                | none => none
+          | _ => none
+        else
+          match unescapeOf p with
+          | none => none
+          | some e =>
+            match parseCharsPinned r1 with
+            | some (cs, rest) => some (e :: cs, rest)
+            | none => none
+    else if c.toNat < 32 then none
+    else
+      match parseCharsPinned r with
+      | some (cs, rest) => some (c :: cs, rest)
+      | none => none
+
+/-- the syntactic parts of a number token: sign, integer digits, fraction digits, exponent;
+    `parseNumber` is `mkNum` of these (`parseNumber_eq_parts`). -/
+def numParts (s : List Char) : Option ((Bool × List Char × Option (List Char) × Int) × List Char) :=
+  let sr := optMinus s
+  let ir := spanDigits sr.2
+  if intOk ir.1 then
+    match parseFrac ir.2 with
+    | none => none
+    | some (frac, s3) =>
+      match parseExp s3 with
+      | none => none
+      | some (ex, s4) => some ((sr.1, ir.1, frac, ex), s4)
+  else none
+
+/-- A finite non-negative IEEE binary64 value `m · 2^e`: normal (`2^52 ≤ m < 2^53`,
+    `-1074 ≤ e ≤ 971`) or subnormal / zero (`m < 2^52`, `e = -1074`). -/
+structure Dbl where
+  m : Nat
+  e : Int
+  deriving Repr, DecidableEq
+
+/-- numerator and denominator of `n/d · 2^(-e)` -/
+def scaleBy (n d : Nat) (e : Int) : Nat × Nat :=
+  if 0 ≤ e then (n, d * 2 ^ e.toNat) else (n * 2 ^ (-e).toNat, d)
+
+/-- `num/den` rounded to the nearest integer, ties to even -/
+def roundHalfEven (num den : Nat) : Nat :=
+  let q := num / den
+  let r := num % den
+  if 2 * r < den then q else if den < 2 * r then q + 1 else q + q % 2
+
+/-- The binary64 value nearest to `n/d` (`d > 0`), ties to even; `none` = overflow (infinity).
+    With `a = log2 n`, `b = log2 d`: `n/d·2^-(a-b-52)` lies in `(2^51, 2^53)`, so one of the two
+    exponents `a-b-52`, `a-b-53` gives a 53-bit quotient; below `2^-1074` the exponent is clamped
+    (gradual underflow). -/
+def roundDbl (n d : Nat) : Option Dbl :=
+  if n = 0 then some ⟨0, -1074⟩
+  else
+    let e0 : Int := (Nat.log2 n : Int) - (Nat.log2 d : Int) - 52
+    let s0 := scaleBy n d e0
+    let e1 : Int := if s0.1 / s0.2 < 2 ^ 52 then e0 - 1 else e0
+    let e : Int := if e1 < -1074 then -1074 else e1
+    let s := scaleBy n d e
+    let q := roundHalfEven s.1 s.2
+    let r : Dbl := if q = 2 ^ 53 then ⟨2 ^ 52, e + 1⟩ else ⟨q, e⟩
+    if 971 < r.e then none else some r
+
+/-- the exact value `m · 2^e` as numerator / denominator -/
+def Dbl.rat (x : Dbl) : Nat × Nat := scaleBy x.m 1 (-x.e)
+
+/-- integer → float conversion -/
+def Dbl.ofNat (i : Nat) : Option Dbl := roundDbl i 1
+/-- IEEE division, addition, multiplication of non-negative values: exact result, rounded once -/
+def Dbl.div (x y : Dbl) : Option Dbl :=
+  if y.m = 0 then none else roundDbl (x.rat.1 * y.rat.2) (x.rat.2 * y.rat.1)
+def Dbl.add (x y : Dbl) : Option Dbl := roundDbl (x.rat.1 * y.rat.2 + y.rat.1 * x.rat.2) (x.rat.2 * y.rat.2)
+def Dbl.mul (x y : Dbl) : Option Dbl := roundDbl (x.rat.1 * y.rat.1) (x.rat.2 * y.rat.2)
+/-- `10.0 ^ k` (`powf`), and the integer `10^k` converted to a float: taken to be the double
+    nearest to `10^k` (exact for `0 ≤ k ≤ 22`; for other `k` this is an assumption about libm,
+    measured by the correspondence run). -/
+def Dbl.pow10 (k : Int) : Option Dbl :=
+  if 0 ≤ k then roundDbl (10 ^ k.toNat) 1 else roundDbl 1 (10 ^ (-k).toNat)
+
+/-- The magnitude of the double a float token SHOULD be read as: the exact decimal
+    `m · 10^e`, rounded once (what the repaired library computes through `number_chars/2`). -/
+def nearestMag (m : Nat) (e : Int) : Option Dbl :=
+  if 0 ≤ e then roundDbl (m * 10 ^ e.toNat) 1 else roundDbl m (10 ^ (-e).toNat)
+
+/-- TODAY's value clause of `json_number//1` for a float token (a fraction is present or the
+    exponent is negative), magnitude only (the multiplication by `Sign` is exact):
+    `Fraction is Value / 10.0 ^ (Power + 1)` and
+    `Number is Sign * (Integer + Fraction) * Base ^ Exponent` with `Base = 10` for
+    `Exponent >= 0`, `10.0` otherwise — up to four roundings (finding C41-2).
+    `none` = a float overflow on the way (evaluation error). -/
+def pinnedMag (ids : List Char) (frac : Option (List Char)) (ex : Int) : Option Dbl :=
+  let sum : Option Dbl :=
+    match frac with
+    | none => Dbl.ofNat (digitsVal ids)
+    | some fds =>
+      match Dbl.ofNat (digitsVal fds), Dbl.pow10 fds.length, Dbl.ofNat (digitsVal ids) with
+      | some v, some p, some i =>
+        match Dbl.div v p with
+        | some f => Dbl.add i f
+        | none => none
+      | _, _, _ => none
+  match sum, Dbl.pow10 ex with
+  | some s, some p => Dbl.mul s p
+  | _, _ => none
+
+/-- the decimal `(m, e)` (not normalised) a float token denotes -/
+def tokenDec (ids : List Char) (frac : Option (List Char)) (ex : Int) : Nat × Int :=
+  match frac with
+  | none => (digitsVal ids, ex)
+  | some fds => (digitsVal (ids ++ fds), ex - (fds.length : Int))
+
 end Scryer.Json
